@@ -40,7 +40,7 @@ def plan(tier, seed):
     rng = random.Random(f'C09-plan-{seed}')
     base = [{'p': 2, 'q': 0, 'r': 0}, {'p': 2, 'q': 0, 'r': 1}, {'p': 1, 'q': 1, 'r': 0}, {'p': 3, 'q': 0, 'r': 0},
             {'signature': [0, 1, -1]}, {'p': 1, 'q': 0, 'r': 1}, {'p': 3, 'q': 0, 'r': 1}, {'named': '2DPGA'}, {'p': 6, 'q': 0, 'r': 0},
-            {'p': 4, 'q': 1, 'r': 1}]
+            {'p': 4, 'q': 1, 'r': 1}, {'p': 5, 'q': 1, 'r': 1}, {'signature': [1, -1, 1, 0, 1, 1, -1]}]
     wrappers = [None, None, 'identity', 'wraps']
     H = []
     nseq, nthr, steps = (64, 24, 40) if tier == 'quick' else (6000, 1200, 50)
@@ -144,9 +144,14 @@ def make_history(rng, alg, cfg, nsteps):
         if alg.d >= 5 or rng.random() < 0.2:
             pool[0] = (0,)          # a scalar-only operand (inverse of a scalar takes its own path in the d >= 6 scheme)
     opsel = rng.sample(BIN + UN, 4)
+    if alg.d >= 7:
+        # lazily filled sign table: cheap elementary products of small operands, requested in both operand orders over the history
+        opsel = rng.sample([o for o in ('gp', 'op', 'ip', 'cp', 'acp', 'lc', 'rc', 'sp', 'add', 'sub', 'reverse', 'involute', 'conjugate') if o in BIN + UN], 4)
     if rng.random() < 0.6 and 'gp' not in opsel:
         opsel[0] = 'gp'
     regsel = rng.sample(REGS, 4) if not graded else []
+    if alg.d >= 7:
+        regsel = regsel[:1]
     steps = []
 
     def keyset():
